@@ -187,4 +187,78 @@ def fam_timers(seed, i):
     return sc
 
 
-FAMILIES = {"core": fam_core, "life": fam_life, "fail": fam_fail, "restart": fam_restart, "timeout": fam_timeout, "timers": fam_timers}
+def fam_tree(seed, i):
+    """C16: actor trees (depth <= 3, <= 6 nodes), children under different buckets, some also held from
+    outside, parent terminated by every cause; broadcasts."""
+    rng = random.Random(f"tree-{seed}-{i}")
+    sc = base("tree", seed, i, rng, horizon=6)
+    n = rng.randint(2, 6)
+    nodes = [f"a{k+1}" for k in range(n)]
+    parent = {}
+    depth = {"a1": 1}
+    for k in range(1, n):
+        cands = [x for x in nodes[:k] if depth[x] < 3]
+        p = rng.choice(cands)
+        parent[nodes[k]] = p
+        depth[nodes[k]] = depth[p] + 1
+    fault = rng.choice(["none", "none", "panic", "cancel", "start_err"])
+    if fault == "cancel":
+        sc["cancels"] = 1
+        sc["cancel_pct"] = rng.choice([4, 10])
+    main = []
+    reg_eff = {x: [] for x in nodes}
+    ext = {}            # external handles kept for clients
+    bucket = {}
+    ncl = rng.randint(1, 3)
+    cl = [f"c{k+1}" for k in range(ncl)]
+    handles = {c: {} for c in cl}
+    # spawn leaves first is not needed: spawn all, then give child handles to the parents
+    for x in nodes:
+        cfg = {"cap": rng.choice([-1, -1, 1, 2]), "pscr": [Y] * rng.choice([0, 1]), "sscr": [[]]}
+        main.append({"op": "spawn", "a": x, "nh": f"r_{x}", "cfg": cfg, "entry": "builder"})
+    late = {}           # children registered by a message instead of in started
+    for x in nodes[1:]:
+        p = parent[x]
+        b = rng.choice(["add_child", "add_child", "register_bc", "register_bc2"])
+        bucket[x] = b
+        if rng.random() < 0.4:
+            c = rng.choice(cl)
+            main.append({"op": "clone", "h": f"r_{x}", "nh": f"e_{x}", "to": c})
+            handles[c][f"e_{x}"] = "addr"
+        main.append({"op": "give", "h": f"r_{x}", "to": p})
+        if rng.random() < 0.75:
+            reg_eff[p].append(eff(b, 0, f"r_{x}"))
+        else:
+            late.setdefault(p, []).append(eff(b, 0, f"r_{x}"))
+    # callback scripts are part of the spawn cfg: patch them in
+    for o in main:
+        if o["op"] == "spawn":
+            x = o["a"]
+            s0 = [Y] * rng.choice([0, 1]) + reg_eff[x]
+            if fault == "start_err" and x == "a1" and rng.random() < 0.5:
+                s0 = s0 + [eff("err")]
+            o["cfg"]["sscr"] = [s0]
+            o["cfg"]["strat"] = rng.choice(["restart", "restart", "recreate"])
+    # the root (and sometimes inner nodes) is held by clients
+    for c in cl:
+        main.append({"op": "clone", "h": "r_a1", "nh": f"h_{c}", "to": c})
+        handles[c][f"h_{c}"] = "addr"
+    main.append({"op": "drop", "h": "r_a1"})
+    sc["clients"]["main"] = main
+    w = {"send": 6, "call": 3, "yield": 2, "drop": 1.5, "stop": 1.2, "restart": 0.5, "sleep": 0.5, "await": 0.7, "stopped": 0.5, "clone": 0.3}
+    cnt = [0]
+    pend = [e for es in late.values() for e in es]
+    for c in cl:
+        def scripts():
+            opts = [[], [Y], [eff("broadcast_unit")], [eff("broadcast_bc")], [eff("broadcast_bc2")], [eff("broadcast_unit"), Y, eff("broadcast_bc")], [eff("ctx_stop")]]
+            if fault == "panic":
+                opts.append([eff("panic")])
+            if late.get("a1"):
+                opts.append([late["a1"].pop()])
+                opts.append(opts[-1])
+            return rng.choice(opts)
+        sc["clients"][c] = Prog(rng, c, handles[c], w, scripts, cnt).run(rng.randint(2, 8))
+    return sc
+
+
+FAMILIES = {"core": fam_core, "life": fam_life, "fail": fam_fail, "restart": fam_restart, "timeout": fam_timeout, "timers": fam_timers, "tree": fam_tree}
